@@ -206,6 +206,8 @@ func (mgr *GCMgr) gc(bkt *Bucket, startChunkID, endChunkID int, merge bool) {
 	}()
 	gc.Begin = startChunkID
 	gc.End = endChunkID
+	verifPoint("gc.begin", bkt.ID)
+	defer verifPoint("gc.end", bkt.ID)
 
 	var oldPos Position
 	var newPos Position
@@ -214,6 +216,7 @@ func (mgr *GCMgr) gc(bkt *Bucket, startChunkID, endChunkID int, merge bool) {
 
 	mgr.BeforeBucket(bkt, startChunkID, endChunkID, merge)
 	defer mgr.AfterBucket(bkt)
+	verifPoint("gc.prepared", bkt.ID)
 
 	gc.Dst = startChunkID
 	// try to find the nearest chunk that small than start chunk
@@ -318,6 +321,7 @@ func (mgr *GCMgr) gc(bkt *Bucket, startChunkID, endChunkID int, merge bool) {
 			if !isNewest {
 				continue
 			}
+			verifPoint("gc.checked", ki.StringKey, oldPos)
 
 			if recsize+dstchunk.writingHead > uint32(Conf.DataFileMax) {
 				dstchunk.endGCWriting()
@@ -339,6 +343,7 @@ func (mgr *GCMgr) gc(bkt *Bucket, startChunkID, endChunkID int, merge bool) {
 				return
 			}
 			// logger.Infof("%s %v %v", ki.StringKey, newPos, meta)
+			verifPoint("gc.copied", ki.StringKey, newPos)
 			if found {
 				if isCoverdByCollision {
 					mgr.UpdateCollision(bkt, ki, oldPos, newPos, rec)
@@ -363,6 +368,7 @@ func (mgr *GCMgr) gc(bkt *Bucket, startChunkID, endChunkID int, merge bool) {
 			bkt.NextGCChunk = gc.Src + 1
 			bkt.dumpGCHistroy()
 		}
+		verifPoint("gc.file.done", gc.Src)
 		logger.Infof("end GC file %#v", fileState)
 		gc.add(&fileState)
 	}
